@@ -17,15 +17,24 @@ def _sx():
 
 
 def concrete(*xs):
+    """true iff every value is a plain Python value (no symbolic term, heap object or engine closure inside)"""
+    import re as _re
     for x in xs:
-        if isinstance(x, (z3.ExprRef, SBytes, SList, SObj, SOpaque, SIter)):
-            return False
-        if isinstance(x, (list, tuple)):
+        if x is None or isinstance(x, (bool, int, float, str, bytes, bytearray, complex, range, _re.Pattern, _re.Match, type)):
+            continue
+        if x.__class__.__name__ == "Fraction":
+            continue
+        if isinstance(x, (list, tuple, set, frozenset)):
             if not concrete(*x):
                 return False
+            continue
         if isinstance(x, dict):
-            if not concrete(*x.values()):
+            if not concrete(*x.keys()) or not concrete(*x.values()):
                 return False
+            continue
+        if type(x).__module__ == "pdfminer.psparser" and type(x).__name__ in ("PSLiteral", "PSKeyword"):
+            continue
+        return False
     return True
 
 
@@ -251,10 +260,13 @@ def pattern_method(I, pat, name, args, kwargs, node):
         except Exception as e:
             raise sx.SymRaise(type(e), sx._txt(node))
     table = pattern_class(pat)
+    if name == "sub":
+        # RE.sub(repl, bytes): a function of (pattern, replacement kind, subject) - uninterpreted
+        from .absval import SFun
+        repl = args[0]
+        I.ctx.notes.add("regex sub(%r) treated as an uninterpreted function of its subject" % pat.pattern)
+        return SFun("re.sub", [pat.pattern, repl if isinstance(repl, (bytes, str)) else "<callable>", args[1]], bytes)
     if table is None:
-        hook = I.summ.__dict__.get("pattern_hooks", {}).get(pat.pattern)
-        if hook:
-            return hook(I, pat, name, args, kwargs, node)
         raise SymError("regex %r is not a single byte class" % pat.pattern)
     pred = byte_class_pred(table)
     s = as_sbytes(args[0])
@@ -276,23 +288,25 @@ def pattern_method(I, pat, name, args, kwargs, node):
         j = I.ctx.fresh_int("m")
         q = z3.Int(I.ctx.fresh_name("t"))
         found = I.ctx.choose([True, False], "search")
+        root = getattr(s, "root", None) or s
+        off = getattr(s, "off", 0)
+        def none_between(lo_, hi_):
+            """no byte of the class in s[lo_:hi_), stated over the underlying buffer's indices"""
+            if isinstance(lo_, int) and isinstance(hi_, int):
+                return L.And(*[z3.Not(pred(s.at(t))) for t in range(lo_, hi_)])
+            body = z3.Implies(z3.And(L.to_z3(off + lo_) <= q, q < L.to_z3(off + hi_)), z3.Not(pred(root.at(q))))
+            pt = root.at(q)
+            if "If(" in str(pt):
+                return z3.ForAll([q], body)
+            return z3.ForAll([q], body, patterns=[pt])
         if found:
             I.ctx.assume(z3.And(L.to_z3(pos) <= j, j < L.to_z3(n)))
             I.ctx.assume(pred(I.elem(s, j)))
-            if isinstance(n, int) and isinstance(pos, int):
-                for t in range(pos, n):
-                    I.ctx.assume(z3.Implies(t < j, z3.Not(pred(s.at(t)))))
-            else:
-                I.ctx.assume(z3.ForAll([q], z3.Implies(z3.And(L.to_z3(pos) <= q, q < j), z3.Not(pred(s.at(q))))))
-            # feasibility
+            I.ctx.assume(none_between(pos, j))
             if not I.ctx.feasible(z3.BoolVal(True)):
                 raise sx.PathEnd()
             return sx.SMatch(j, s)
-        if isinstance(n, int) and isinstance(pos, int):
-            for t in range(pos, n):
-                I.ctx.assume(z3.Not(pred(s.at(t))))
-        else:
-            I.ctx.assume(z3.ForAll([q], z3.Implies(z3.And(L.to_z3(pos) <= q, q < L.to_z3(n)), z3.Not(pred(s.at(q))))))
+        I.ctx.assume(none_between(pos, n))
         if not I.ctx.feasible(z3.BoolVal(True)):
             raise sx.PathEnd()
         return None
@@ -319,6 +333,9 @@ def sbytes_method(I, s, name, args, kwargs, node):
             if s.n == 0:
                 return False
             return L.And(*[pred(I.elem(s, k)) for k in range(s.n)])
+        mx = getattr(s, "maxn", None)
+        if mx is not None:
+            return L.And(s.n > 0, *[z3.Implies(s.n > k, pred(s.at(k))) for k in range(mx)])
         return L.And(s.n > 0, L.ForAllInt(0, s.n, lambda k: pred(s.at(k))))
     if name == "startswith":
         p = as_sbytes(args[0])
